@@ -255,26 +255,24 @@ Require Import Blots.EvalFull Blots.EvalAll Blots.DisplayNum Blots.proofs.AggPan
 From Coq Require Import Floats.SpecFloat.
 
 (* ---- C01_builtin_call_no_panic_full, for the dispatcher that really has every arm: after the arity
-        check no arm panics.  Three named side conditions, each about something outside the
-        transcription, each NECESSARY in the model (examples below):
+        check no arm panics.  Two named side conditions, each about something outside the
+        transcription, each NECESSARY in the model (a third, time_now's "clock not before 1970", went away
+        with repo fix bf56486: the arm is total now and so is the model's):
           percentile  p is a genuine double, the list has <= 2^53 elements (AggPanics.args_ok; spec_float
                       has non-canonical inhabitants that no f64 corresponds to);
           format      displaying the numbers among the arguments does not overflow the i32 / i64
                       arithmetic of format_display_number (true of every genuine double under the real
-                      log10: C01_format_condition_holds_for_doubles);
-          time_now    the system clock is not before 1970 (duration_since(UNIX_EPOCH).unwrap()). ---- *)
+                      log10: C01_format_condition_holds_for_doubles). ---- *)
 Theorem C01_builtin_call_no_panic_all : forall o cb b args st,
   cb_safe cb -> can_accept (builtin_arity b) (Datatypes.length args) = true ->
   (b = B_percentile -> args_ok args) ->
   (b = B_format -> format_display_safe o args) ->
-  (b = B_time_now -> o_now o <> None) ->
   fst (builtin_all o cb b args st) <> Panic.
 Proof. exact builtin_all_no_panic. Qed.
 Check C01_builtin_call_no_panic_all : forall o cb b args st,
   cb_safe cb -> can_accept (builtin_arity b) (Datatypes.length args) = true ->
   (b = B_percentile -> args_ok args) ->
   (b = B_format -> format_display_safe o args) ->
-  (b = B_time_now -> o_now o <> None) ->
   fst (builtin_all o cb b args st) <> Panic.
 Print Assumptions C01_builtin_call_no_panic_all.
 
@@ -284,14 +282,12 @@ Theorem C01_builtin_call_no_panic_all_axiom_free : forall o cb b args st,
   cb_safe cb -> can_accept (builtin_arity b) (Datatypes.length args) = true ->
   (b = B_percentile -> BuiltinsAgg.bi_percentile args <> Panic) ->
   (b = B_format -> format_display_safe o args) ->
-  (b = B_time_now -> o_now o <> None) ->
   fst (builtin_all o cb b args st) <> Panic.
 Proof. exact builtin_all_no_panic_gen. Qed.
 Check C01_builtin_call_no_panic_all_axiom_free : forall o cb b args st,
   cb_safe cb -> can_accept (builtin_arity b) (Datatypes.length args) = true ->
   (b = B_percentile -> BuiltinsAgg.bi_percentile args <> Panic) ->
   (b = B_format -> format_display_safe o args) ->
-  (b = B_time_now -> o_now o <> None) ->
   fst (builtin_all o cb b args st) <> Panic.
 Print Assumptions C01_builtin_call_no_panic_all_axiom_free.
 
@@ -336,9 +332,9 @@ Check C01_operators_no_panic_all : forall o cb op l r st,
 Print Assumptions C01_operators_no_panic_all.
 
 (* the Panic arms are live code of the model / the side conditions are needed *)
-Example C01_time_now_panics_before_the_epoch : forall o cb st,
-  o_now o = None -> fst (builtin_all o cb B_time_now [] st) = Panic.
-Proof. exact time_now_needs_its_clock. Qed.
+Example C01_time_now_is_total : forall o cb st,
+  fst (builtin_all o cb B_time_now [] st) = Ok (VNum (o_now o)).
+Proof. exact time_now_total. Qed.
 Example C01_dyn_fmt_unreachable_arm_is_modelled : dyn_go DArg EmptyString [] = Panic.
 Proof. reflexivity. Qed.
 Example C01_format_slice_panics_without_arity_check : forall o, bi_format o [] = Panic.
@@ -520,3 +516,181 @@ Example C01_text_run_example :
   = "OK:N4020000000000000|OK:L[N4020000000000000,N4022000000000000];ENV:78=N4020000000000000,79=L[N4020000000000000,N4022000000000000];OUT:79=L[N4020000000000000,N4022000000000000]".
 Proof. vm_compute. reflexivity. Qed.
 End TextLayer.
+
+(* ==================================================================================================
+   EVALUATOR-LEVEL never-Panic FOR THE COMPLETE BUILT-IN SET (extension C01V).
+   The per-call theorem above has side conditions that hold for genuine doubles only, and spec_float has
+   non-canonical inhabitants; so the evaluator carries the VALIDITY INVARIANT of coq/Valid.v: every number
+   literal of the program (valid_expr), every number inside every bound value incl. closures' bodies and
+   captured values (valid_cfg), every oracle result (oracle_valid) is a valid binary64
+   (SpecFloat.valid_binary 53 1024).  proofs/AllValidNum.v: every Num.v operation preserves it (Flocq);
+   AllValidOps.v / AllValidPure.v / AllValidBuiltins.v: so does every operator and every built-in arm;
+   AllValidEval.v: so does evaluation (all expression forms, every depth), and nothing panics on the way.
+   Hypotheses on the oracle: oracle_valid o (numbers in, numbers out) and oracle_display_safe o (displaying a
+   valid double does not overflow format_display_number's i32 / i64 arithmetic; two sufficient conditions
+   below, one of them C20's log10_sane_pos).  The ONE remaining explicit side condition is percentile's list
+   length: the theorems speak about Valid.builtin_all_fit o = builtin_all o except that percentile of a list
+   of more than 2^53 elements is an error — a HYPOTHESIS ON LIST LENGTHS (no resource bound of the model rules
+   such a list out), made explicit by C01_percentile_guard_is_the_only_difference.
+   ================================================================================================== *)
+Require Import Blots.Valid Blots.AllRun Blots.proofs.AllValidNum Blots.proofs.AllValidEval Blots.proofs.AllValidOps
+               Blots.proofs.AllValidBuiltins Blots.proofs.AllValid.
+
+Theorem C01_eval_no_panic_all : forall o, oracle_valid o -> oracle_display_safe o ->
+  forall release d c e, valid_expr e -> wf c -> valid_cfg c ->
+  fst (evalD release (binop_all o) (builtin_all_fit o) d c e) <> Panic.
+Proof. exact evalD_all_no_panic. Qed.
+Check C01_eval_no_panic_all : forall o, oracle_valid o -> oracle_display_safe o ->
+  forall release d c e, valid_expr e -> wf c -> valid_cfg c ->
+  fst (evalD release (binop_all o) (builtin_all_fit o) d c e) <> Panic.
+Print Assumptions C01_eval_no_panic_all.
+
+(* the invariant is preserved: a valid value, and a configuration satisfying wf and valid_cfg again *)
+Theorem C01_eval_validity_preserved_all : forall o, oracle_valid o -> oracle_display_safe o ->
+  forall release d c e r c', valid_expr e -> wf c -> valid_cfg c ->
+  evalD release (binop_all o) (builtin_all_fit o) d c e = (r, c') ->
+  (forall v, r = Ok v -> valid_value v) /\ wf c' /\ valid_cfg c'.
+Proof. exact evalD_all_preserves. Qed.
+Check C01_eval_validity_preserved_all : forall o, oracle_valid o -> oracle_display_safe o ->
+  forall release d c e r c', valid_expr e -> wf c -> valid_cfg c ->
+  evalD release (binop_all o) (builtin_all_fit o) d c e = (r, c') ->
+  (forall v, r = Ok v -> valid_value v) /\ wf c' /\ valid_cfg c'.
+Print Assumptions C01_eval_validity_preserved_all.
+
+(* FunctionDef::call at every depth, from every valid scope chain, on valid arguments *)
+Theorem C01_call_no_panic_all : forall o, oracle_valid o -> oracle_display_safe o ->
+  forall release d fr this f args st,
+  valid_frames fr -> valid_value this -> valid_value f -> valid_values args ->
+  fst (AD release (binop_all o) (builtin_all_fit o) d fr this f args st) <> Panic /\
+  (forall v, fst (AD release (binop_all o) (builtin_all_fit o) d fr this f args st) = Ok v -> valid_value v).
+Proof. exact AD_all_no_panic. Qed.
+Check C01_call_no_panic_all : forall o, oracle_valid o -> oracle_display_safe o ->
+  forall release d fr this f args st,
+  valid_frames fr -> valid_value this -> valid_value f -> valid_values args ->
+  fst (AD release (binop_all o) (builtin_all_fit o) d fr this f args st) <> Panic /\
+  (forall v, fst (AD release (binop_all o) (builtin_all_fit o) d fr this f args st) = Ok v -> valid_value v).
+Print Assumptions C01_call_no_panic_all.
+
+(* whole programs: valid inputs, valid program, any build: no statement result is a Panic, every value valid *)
+Theorem C01_program_no_panic_all : forall o, oracle_valid o -> oracle_display_safe o ->
+  forall release inputs prog, valid_inputs inputs -> valid_prog prog ->
+  Forall (fun rs => fst rs <> RFail Panic /\ valid_resultb (fst rs) = true)
+         (snd (run (eval_top release (binop_all o) (builtin_all_fit o)) (init_session inputs) prog)).
+Proof. exact program_all_no_panic. Qed.
+Check C01_program_no_panic_all : forall o, oracle_valid o -> oracle_display_safe o ->
+  forall release inputs prog, valid_inputs inputs -> valid_prog prog ->
+  Forall (fun rs => fst rs <> RFail Panic /\ valid_resultb (fst rs) = true)
+         (snd (run (eval_top release (binop_all o) (builtin_all_fit o)) (init_session inputs) prog)).
+Print Assumptions C01_program_no_panic_all.
+
+(* the per-call theorem for the REAL dispatcher with its side conditions discharged from validity: what is left of
+   C01_builtin_call_no_panic_all's hypotheses is the list length of percentile *)
+Theorem C01_builtin_call_no_panic_valid_all : forall o, oracle_valid o -> oracle_display_safe o ->
+  forall cb b args st, vcb cb ->
+  can_accept (builtin_arity b) (Datatypes.length args) = true -> valid_values args ->
+  (b = B_percentile -> percentile_fits args = true) ->
+  fst (builtin_all o cb b args st) <> Panic /\
+  (forall v, fst (builtin_all o cb b args st) = Ok v -> valid_value v).
+Proof. exact builtin_all_call_valid. Qed.
+Check C01_builtin_call_no_panic_valid_all : forall o, oracle_valid o -> oracle_display_safe o ->
+  forall cb b args st, vcb cb ->
+  can_accept (builtin_arity b) (Datatypes.length args) = true -> valid_values args ->
+  (b = B_percentile -> percentile_fits args = true) ->
+  fst (builtin_all o cb b args st) <> Panic /\
+  (forall v, fst (builtin_all o cb b args st) = Ok v -> valid_value v).
+Print Assumptions C01_builtin_call_no_panic_valid_all.
+
+Theorem C01_percentile_guard_is_the_only_difference : forall o cb b args st,
+  (b = B_percentile -> percentile_fits args = true) ->
+  builtin_all_fit o cb b args st = builtin_all o cb b args st.
+Proof. exact fit_is_the_only_difference. Qed.
+Check C01_percentile_guard_is_the_only_difference : forall o cb b args st,
+  (b = B_percentile -> percentile_fits args = true) ->
+  builtin_all_fit o cb b args st = builtin_all o cb b args st.
+Print Assumptions C01_percentile_guard_is_the_only_difference.
+
+(* the complete operator table on valid operands: never Panic, a valid value *)
+Theorem C01_operators_valid_all : forall o, oracle_valid o ->
+  forall cb op l r st, vcb cb -> valid_value l -> valid_value r ->
+  fst (binop_all o cb op l r st) <> Panic /\ (forall v, fst (binop_all o cb op l r st) = Ok v -> valid_value v).
+Proof. exact binop_all_valid. Qed.
+Check C01_operators_valid_all : forall o, oracle_valid o ->
+  forall cb op l r st, vcb cb -> valid_value l -> valid_value r ->
+  fst (binop_all o cb op l r st) <> Panic /\ (forall v, fst (binop_all o cb op l r st) = Ok v -> valid_value v).
+Print Assumptions C01_operators_valid_all.
+
+(* the AXIOM-FREE core: the evaluator induction for EVERY operator / built-in implementation that is
+   valid-in / valid-out and panic-free on valid arguments (the Flocq axioms enter only where the hypotheses are
+   discharged: the arithmetic of Num.v is proved valid through Flocq's correctness lemmas) *)
+Theorem C01_eval_no_panic_valid_generic : forall release bi bu,
+  (forall cb op l r st, vcb cb -> valid_value l -> valid_value r -> vres (fst (bi cb op l r st))) ->
+  (forall cb b args st, vcb cb -> can_accept (builtin_arity b) (Datatypes.length args) = true ->
+     valid_values args -> vres (fst (bu cb b args st))) ->
+  (forall n, valid_num n -> vres (factorial_val release n)) ->
+  forall d c e, valid_expr e -> Inv c -> good valid_value (evalD release bi bu d c e).
+Proof. exact evalD_ok. Qed.
+Check C01_eval_no_panic_valid_generic : forall release bi bu,
+  (forall cb op l r st, vcb cb -> valid_value l -> valid_value r -> vres (fst (bi cb op l r st))) ->
+  (forall cb b args st, vcb cb -> can_accept (builtin_arity b) (Datatypes.length args) = true ->
+     valid_values args -> vres (fst (bu cb b args st))) ->
+  (forall n, valid_num n -> vres (factorial_val release n)) ->
+  forall d c e, valid_expr e -> Inv c -> good valid_value (evalD release bi bu d c e).
+Print Assumptions C01_eval_no_panic_valid_generic.
+
+(* oracle_display_safe: two sufficient conditions.  (1) for ANY display library: floor(log10 a) as i32 within
+   +-2000 for every a;  (2) C20's hypothesis on libm — log10_sane_pos, the SAME statement as Properties/C20.v's,
+   sampled on the real f64::log10 by C20's LOG10SANE stream — when the four std functions under the display are C20's
+   executable models (proved there to meet their specifications; the table oracle of the ALL stream has exactly them) *)
+Theorem C01_display_safe_of_log10_in_range : forall o,
+  (forall a, (Z.abs (as_i32 (nfloor (o_log10 o a))) <= 2000)%Z) -> oracle_display_safe o.
+Proof. exact display_safe_of_log10_in_range. Qed.
+Check C01_display_safe_of_log10_in_range : forall o,
+  (forall a, (Z.abs (as_i32 (nfloor (o_log10 o a))) <= 2000)%Z) -> oracle_display_safe o.
+Print Assumptions C01_display_safe_of_log10_in_range.
+Theorem C01_display_safe_of_log10_sane_pos : forall o,
+  log10_sane_pos (o_log10 o) -> display_library_exec o -> oracle_display_safe o.
+Proof. exact display_safe_of_log10_sane_pos. Qed.
+Check C01_display_safe_of_log10_sane_pos : forall o,
+  log10_sane_pos (o_log10 o) -> display_library_exec o -> oracle_display_safe o.
+Print Assumptions C01_display_safe_of_log10_sane_pos.
+
+(* the lookup-table oracle the ALL stream runs is valid for EVERY table the harness can dump (its numbers are
+   64-bit patterns, and every 64-bit pattern is a double: AllValidNum.num_of_bits_valid) and has C20's display library *)
+Theorem C01_table_oracle_valid : forall T, oracle_valid (oracle_of T) /\ display_library_exec (oracle_of T).
+Proof. intros T. split; [apply oracle_of_valid|apply oracle_of_display_library]. Qed.
+Check C01_table_oracle_valid : forall T, oracle_valid (oracle_of T) /\ display_library_exec (oracle_of T).
+Print Assumptions C01_table_oracle_valid.
+
+(* ---- every hypothesis is satisfiable; the invariant is not vacuous ---- *)
+Example C01_oracle_hypotheses_satisfiable : oracle_valid oracle_trivial /\ oracle_display_safe oracle_trivial.
+Proof. split; [exact oracle_trivial_valid|exact oracle_trivial_display_safe]. Qed.
+Example C01_valid_initial : forall inputs, valid_inputs inputs ->
+  wf (s_cfg (init_session inputs)) /\ valid_cfg (s_cfg (init_session inputs)).
+Proof. intros inputs H. exact (init_session_Inv inputs H). Qed.
+Example C01_valid_program_example : valid_prog ex_all_prog /\ valid_inputs [].
+Proof. split; vm_compute; reflexivity. Qed.
+(* a non-canonical inhabitant of spec_float: 2^63 with exponent 0 is not a double (64-bit mantissa) *)
+Example C01_invalid_number_exists : valid_numb (S754_finite true 9223372036854775808 0) = false.
+Proof. vm_compute. reflexivity. Qed.
+(* C20's hypothesis on libm is satisfiable together with C20's display library: the exact floor-log10 model *)
+Require Blots.proofs.DisplayNumDischarge5.
+Example C01_log10_sane_pos_satisfiable : log10_sane_pos Blots.proofs.DisplayNumDischarge5.log10_floor_model.
+Proof. intros a k V _ D. exact (Blots.proofs.DisplayNumDischarge5.log10_floor_model_sane a k V D). Qed.
+
+(* ---- how valid_expr is tied to the parser: the ONE place where the text -> AST model (PegToItems.v) creates a number is
+        number_item (decimal tokens: Rust's FromStr = rn_decimal; 0x / 0b tokens: the repaired accumulator loop), and every
+        number it creates is a valid binary64; Pratt.v moves the INum item into ENum unchanged.  (A theorem "the AST of every
+        accepted text satisfies valid_expr" over the whole of PegToItems + Pratt is NOT proved; the ALL stream evaluates
+        valid_progb on every parsed program.) ---- *)
+Require Import Blots.NumText Blots.PrattTypes Blots.PegToItems Blots.proofs.AllValidLit.
+Theorem C01_parsed_number_literal_valid : forall tok x, number_item tok = INum x -> valid_num x.
+Proof. exact number_item_valid. Qed.
+Check C01_parsed_number_literal_valid : forall tok x, number_item tok = INum x -> valid_num x.
+Print Assumptions C01_parsed_number_literal_valid.
+(* the callback hypothesis `vcb` of the per-call theorems is inhabited: FunctionDef::call itself, at any depth *)
+Example C01_vcb_inhabited : vcb (AD true (binop_all oracle_trivial) (builtin_all_fit oracle_trivial) 3 []).
+Proof.
+  intros this f args st Ht Hf Ha.
+  exact (C01_call_no_panic_all oracle_trivial oracle_trivial_valid oracle_trivial_display_safe true 3 [] this f args st
+           eq_refl Ht Hf Ha).
+Qed.
